@@ -208,6 +208,14 @@ type Real struct {
 	fields map[string]fieldRef // field name (unique per case) -> value
 	optRef map[string]string   // field name -> "uid.gi.oi" (filled by indexOptions)
 	execs  []*execCmd
+	ini    *flags.IniParser // one IniParser for all the ini operations of a case (as a program that reads several files would)
+}
+
+func (r *Real) iniParser() *flags.IniParser {
+	if r.ini == nil {
+		r.ini = flags.NewIniParser(r.p)
+	}
+	return r.ini
 }
 
 type rootStruct struct {
@@ -820,7 +828,7 @@ func (r *Real) RunOps() []string {
 			}
 		case "iniparse":
 			r.log.lines = nil
-			ip := flags.NewIniParser(r.p)
+			ip := r.iniParser()
 			ip.ParseAsDefaults = op.AsDefaults
 			var err error
 			var pan interface{}
@@ -842,7 +850,7 @@ func (r *Real) RunOps() []string {
 			}
 		case "iniwrite":
 			var b strings.Builder
-			ip := flags.NewIniParser(r.p)
+			ip := r.iniParser()
 			if pan := safe(func() { ip.Write(&b, flags.IniOptions(op.Bits)) }); pan != nil {
 				out = append(out, fmt.Sprintf("PANIC %v", pan))
 			} else {
